@@ -35,8 +35,10 @@ def main():
     head = sh(["git", "-C", "/repo", "rev-parse", "HEAD"]).stdout.strip()
     if not os.path.isdir(WT):
         sh(["git", "-C", "/repo", "worktree", "add", "--detach", WT, head])
+    sh(["git", "-C", WT, "reset", "--hard", "-q"])
     sh(["git", "-C", WT, "checkout", "-q", "--detach", head])
-    sh(["git", "-C", WT, "checkout", "--", "."])
+    sh(["git", "-C", WT, "reset", "--hard", "-q"])
+    sh(["git", "-C", WT, "clean", "-fdq"])
     env = dict(os.environ, PYTHONPATH=os.path.join(WT, "src"), PYTHONDONTWRITEBYTECODE="1")
     ev = {"repo_head": head[:7], "when": time.strftime("%Y-%m-%d %H:%M")}
     # demo without patch
@@ -46,10 +48,13 @@ def main():
     ev["patch_applies"] = ap.returncode == 0
     if ap.returncode != 0:
         ap = sh(["git", "-C", WT, "apply", "--3way", "--whitespace=nowarn", os.path.join(d, "patch.diff")])
-        ev["patch_applies_3way"] = ap.returncode == 0
-        if ap.returncode != 0:
-            ev["error"] = ap.stderr[-500:]
+        unmerged = sh(["git", "-C", WT, "diff", "--name-only", "--diff-filter=U"]).stdout.strip()
+        ev["patch_applies_3way"] = ap.returncode == 0 and not unmerged
+        if ap.returncode != 0 or unmerged:
+            ev["error"] = "patch does not apply to current HEAD: " + (ap.stderr[-300:] or unmerged)
+            sh(["git", "-C", WT, "reset", "--hard", "-q"])
             return finish(d, meta, ev)
+        sh(["git", "-C", WT, "reset", "-q"])
     try:
         r1 = sh([PY, os.path.join(d, "demo.py")], cwd=WT, env=env, timeout=600)
         ev["demo_exit_with_patch"] = r1.returncode
@@ -68,7 +73,7 @@ def main():
             ev["checks"][c] = {"exit": r.returncode, "tier": tier, "keys": keys[:8], "wall_s": round(time.time() - t0, 1),
                                "first": (lines[1][:400] if len(lines) > 1 else (lines[0][:300] if lines else ""))}
     finally:
-        sh(["git", "-C", WT, "checkout", "--", "."])
+        sh(["git", "-C", WT, "reset", "--hard", "-q"])
     finish(d, meta, ev)
 
 
